@@ -57,7 +57,14 @@ ZeroWrap(t) == {B("mul", Num(0, 1), t), B("mul", t, Num(0, 1)), B("mul", Num(0, 
 SumBases == {B(o, a, b) : o \in {"add", "sub"}, a \in NumLeaves, b \in NumLeaves}
 NegWrap(t) == {U("neg", t), B("mul", Num(-1, 1), t), B("mul", t, Num(-2, 1)), B("div", t, Num(-1, 1)), U("neg", U("neg", t))}
               \cup {B("sub", l, t) : l \in {V("y"), Num(0, 1), Num(2, 1)}}
-PickBase == /\ Family # "d1" /\ done = "no"
+\* family "assoc": two binary operators of the same class applied in a row, in both groupings
+\* (a o1 b) o2 c  and  a o1 (b o2 c): what precedence and associativity decide when written without parentheses
+AssocTrees == {B(o2, B(o1, a, b), c) : o1 \in ArOps, o2 \in ArOps, a \in {V("x"), Num(2, 1)}, b \in {V("y"), Num(2, 1)}, c \in {V("x"), Num(-1, 1)}}
+              \cup {B(o1, a, B(o2, b, c)) : o1 \in ArOps, o2 \in ArOps, a \in {V("x"), Num(2, 1)}, b \in {V("y"), Num(2, 1)}, c \in {V("x"), Num(-1, 1)}}
+              \cup {B(o2, B(o1, a, b), c) : o1 \in LgOps, o2 \in LgOps, a \in {V("p"), Num(1, 1)}, b \in {V("q"), Num(0, 1)}, c \in {V("p"), V("q")}}
+              \cup {B(o1, a, B(o2, b, c)) : o1 \in LgOps, o2 \in LgOps, a \in {V("p"), Num(1, 1)}, b \in {V("q"), Num(0, 1)}, c \in {V("p"), V("q")}}
+PickAssoc == /\ Family = "assoc" /\ done = "no" /\ (\E t \in AssocTrees : tree' = t) /\ done' = "yes" /\ UNCHANGED base
+PickBase == /\ Family \notin {"d1", "assoc"} /\ done = "no"
             /\ \E t \in (CASE Family = "d2num" -> NumD1_(0) \ NumLeaves [] Family = "zero" -> DivBases [] Family = "negsum" -> SumBases
                            [] OTHER -> LogD1_(0) \ LogLeaves) : base' = t
             /\ done' = "base" /\ UNCHANGED tree
@@ -67,7 +74,7 @@ Wrap == /\ done = "base"
                        [] Family = "negsum" -> NegWrap(base)
                        [] OTHER -> WrapLog(base) \cup WrapLogAsNum(base)) : tree' = t
         /\ done' = "yes" /\ UNCHANGED base
-Next == PickD1 \/ PickBase \/ Wrap
+Next == PickD1 \/ PickAssoc \/ PickBase \/ Wrap
 Spec == Init /\ [][Next]_vars
 Emit == done = "yes" => PrintT(<<"CASE", ToJson([tree |-> tree])>>)
 =============================================================================
